@@ -62,6 +62,7 @@ type Term struct {
 	xs      []*Term // OpUF args
 	val     uint64
 	name    string
+	taint   bool // depends on an opaque (formatted) value
 }
 
 type termKey struct {
@@ -101,6 +102,7 @@ func (tt *TermTable) mk(op Op, w uint8, a, b, c *Term, val uint64, name string) 
 		return t
 	}
 	t := &Term{id: int32(len(tt.terms)), op: op, w: w, a: a, b: b, c: c, val: val, name: name}
+	t.taint = (a != nil && a.taint) || (b != nil && b.taint) || (c != nil && c.taint)
 	tt.terms = append(tt.terms, t)
 	tt.tab[k] = t
 	if op == OpVar {
@@ -133,7 +135,7 @@ func (tt *TermTable) Var(name string, w uint8) *Term {
 }
 
 func (tt *TermTable) Const(v uint64, w uint8) *Term {
-	return tt.mk(OpConst, w, nil, nil, nil, v&mask(w), "")
+	return tt.mk(OpConst, w, nil, nil, nil, v&maskB(w), "")
 }
 
 func (tt *TermTable) Bool(b bool) *Term {
